@@ -70,6 +70,13 @@ fn out_to_json(i: u64, o: &RunOut, with_sample: bool) -> Value {
 
 /// worker main loop: reads "R <i>" lines, answers "S <i>", "D <json>"; counters flushed as "C <json>".
 pub fn worker_main(prop: &dyn Prop, tier: Tier, base_seed: u64) -> i32 {
+    // a runaway execution (e.g. a cycle limit that is not enforced) must not take the machine down:
+    // cap the address space of a worker; an allocation failure aborts the worker, which the
+    // supervisor reports for the run in progress
+    unsafe {
+        let lim = libc::rlimit { rlim_cur: 12 << 30, rlim_max: 12 << 30 };
+        libc::setrlimit(libc::RLIMIT_AS, &lim);
+    }
     let stdin = std::io::stdin();
     let stdout = std::io::stdout();
     let mut counters: BTreeMap<String, u64> = BTreeMap::new();
